@@ -19,6 +19,7 @@ from liquid2.builtin import Identifier
 from liquid2.builtin import Literal
 from liquid2.builtin import identifier_str
 from liquid2.builtin import parse_keyword_arguments
+from liquid2.context import length
 from liquid2.builtin import parse_primitive
 from liquid2.builtin import parse_string_or_identifier
 from liquid2.builtin import parse_string_or_path
@@ -100,7 +101,7 @@ class IncludeNode(Node):
                 key = self.alias or template.name.split(".")[0]
 
                 if isinstance(val, Sequence) and not isinstance(val, str):
-                    context.raise_for_loop_limit(len(val))
+                    context.raise_for_loop_limit(length(val))
                     for itm in val:
                         namespace[key] = itm
                         character_count += template.render_with_context(
@@ -145,7 +146,7 @@ class IncludeNode(Node):
                 key = self.alias or template.name.split(".")[0]
 
                 if isinstance(val, Sequence) and not isinstance(val, str):
-                    context.raise_for_loop_limit(len(val))
+                    context.raise_for_loop_limit(length(val))
                     for itm in val:
                         namespace[key] = itm
                         character_count += await template.render_with_context_async(
